@@ -388,7 +388,7 @@ fn straddle(rng: &mut Rng, arch: &str, border: usize, extra: usize) -> Vec<u8> {
 pub const BCJ_DATA: &[&str] = &["tiny", "random", "exe", "dense", "straddle4096", "runs00ff", "exe_big"];
 
 fn gen_bcj_data(rng: &mut Rng, arch: &str, class: &str, tier: &str) -> Vec<u8> {
-    let big = if tier == "thorough" { 131072 } else { 40000 };
+    let big = if tier == "thorough" { 81920 } else { 40000 }; // the extracted model recurses once per step: stay below the 8 MiB stack
     match class {
         "tiny" => {
             let n = rng.below((align(arch) + min_len(arch) + 6) as u64) as usize;
